@@ -10,6 +10,7 @@ type c02op struct {
 	weights  []string // names that are weights (initializers) in the "weights" variant
 	mode     string
 	altB     []string // specs for the second input set (default: same as tensors)
+	bad      []string // specs of an input set that passes the signature check but fails inside the node
 	feedback string
 }
 
@@ -63,8 +64,19 @@ func c02Ops() []c02op {
 	o = append(o, f("Conv", "", "x,k,b", "o", []string{"x:1,1,3,3", "k:2,1,2,2", "b:2"}, "k", "b"))
 	o = append(o, f("Conv", "pads=1,0,0,1;strides=2,1", "x,k,b", "o", []string{"x:2,2,3,4", "k:2,2,2,2", "b:2"}, "k", "b"))
 	o = append(o, f("Conv", "", "x,k", "o", []string{"x:1,2,4", "k:1,2,2"}, "k"))
-	o = append(o, f("RNN", "hidden_size=2", "x,W,R,B,,h", "y,yh", []string{"x:2,2,2", "W:1,2,2", "R:1,2,2", "B:1,4", "h:1,2,2"}, "W", "R", "B", "h"))
-	o = append(o, f("GRU", "hidden_size=2;linear_before_reset=1", "x,W,R,B,,h", "y,yh", []string{"x:2,2,2", "W:1,6,2", "R:1,6,2", "B:1,12", "h:1,2,2"}, "W", "R", "B", "h"))
+	// dilated kernels, kernel_shape given and inferred (the inferred one aliases the weight's shape)
+	o = append(o, f("Conv", "dilations=2", "x,k", "o", []string{"x:1,1,4", "k:1,1,2"}, "k"))
+	o = append(o, f("Conv", "dilations=2,1;kernel_shape=2,2", "x,k,b", "o", []string{"x:1,1,3,2", "k:1,1,2,2", "b:1"}, "k", "b"))
+	o = append(o, f("Conv", "dilations=1,2;auto_pad=SAME_UPPER", "x,k", "o", []string{"x:1,1,2,3", "k:1,1,2,2"}, "k"))
+	rn := f("RNN", "hidden_size=2", "x,W,R,B,,h", "y,yh", []string{"x:2,2,2", "W:1,2,2", "R:1,2,2", "B:1,4", "h:1,2,2"}, "W", "R", "B", "h")
+	rn.bad = []string{"x:1,3,2"} // batch 3 against a state for batch 2
+	o = append(o, rn)
+	gr := f("GRU", "hidden_size=2;linear_before_reset=1", "x,W,R,B,,h", "y,yh", []string{"x:2,2,2", "W:1,6,2", "R:1,6,2", "B:1,12", "h:1,2,2"}, "W", "R", "B", "h")
+	gr.bad = []string{"x:1,3,2"}
+	o = append(o, gr)
+	ls := f("LSTM", "hidden_size=2", "x,W,R,,,h,c", "y,yh,yc", []string{"x:1,2,2", "W:1,8,2", "R:1,8,2", "h:1,2,2", "c:1,2,2"}, "W", "R", "h", "c")
+	ls.bad = []string{"x:1,1,2"}
+	o = append(o, ls)
 	o = append(o, f("GRU", "hidden_size=2", "x,W,R,,,h", "y,yh", []string{"x:1,2,2", "W:1,6,2", "R:1,6,2", "h:1,2,2"}, "W", "R", "h"))
 	o = append(o, f("LSTM", "hidden_size=2", "x,W,R,B,,h,c,P", "y,yh,yc", []string{"x:2,2,2", "W:1,8,2", "R:1,8,2", "B:1,16", "h:1,2,2", "c:1,2,2", "P:1,6"}, "W", "R", "B", "h", "c", "P"))
 	for _, kd := range []string{"keepdims=1", "keepdims=0"} {
@@ -111,7 +123,7 @@ func init() {
 			inputs []string
 		}{{"mlp", []string{"data_input:2,3"}}, {"scaler", []string{"X:2,3"}}, {"gru", []string{"data_input:2,2,3", "init_hidden:1,2,5"}}} {
 			p.Jobs = append(p.Jobs, Job{Harness: "gonnx.H_C17", Case: map[string]interface{}{"sample": s.name, "inputs": s.inputs, "mode": "",
-				"ops": []string{}, "ins": []string{}, "outs": []string{}, "attrs": []string{}, "inits": []string{}, "outputs": []string{}, "inputsB": []string{}, "feedback": ""}})
+				"ops": []string{}, "ins": []string{}, "outs": []string{}, "attrs": []string{}, "inits": []string{}, "outputs": []string{}, "inputsB": []string{}, "inputsBad": []string{}, "feedback": ""}})
 		}
 		p.Level = "other"
 		p.RaceHarness = "gonnx.H_C17_race"
@@ -171,6 +183,22 @@ func c02Plan(o Options, prop, harness string) *Plan {
 				cm["inputsB"] = inputsB
 				cm["mode"] = c.mode
 				cm["feedback"] = fb
+				var bad []string
+				if len(c.bad) > 0 {
+					// the misfitting tensors replace their namesakes, the other caller inputs stay as they are
+					repl := map[string]string{}
+					for _, b := range c.bad {
+						repl[strings.SplitN(b, ":", 2)[0]] = b
+					}
+					for _, s := range inputs {
+						if r, ok := repl[strings.SplitN(s, ":", 2)[0]]; ok {
+							bad = append(bad, r)
+						} else {
+							bad = append(bad, s)
+						}
+					}
+				}
+				cm["inputsBad"] = bad
 				p.Jobs = append(p.Jobs, Job{Harness: harness, Case: cm})
 			}
 		}
@@ -179,9 +207,19 @@ func c02Plan(o Options, prop, harness string) *Plan {
 			{{"Gemm", "x,w,b", "a", "transB=1"}, {"Relu", "a", "r", ""}, {"Gemm", "r,w", "o", ""}},
 			{{"Transpose", "x", "a", "perm=1,0"}, {"MatMul", "a,w", "b2", ""}, {"Add", "b2,x", "o", ""}},
 			{{"Conv", "x4,k,cb", "a", ""}, {"Relu", "a", "o", ""}},
+			// a weight passed through an operator that may hand its input on unchanged, as an INTERMEDIATE value
+			{{"Expand", "w,s2", "t", ""}, {"Add", "x,t", "o", ""}},
+			{{"Concat", "w", "t", "axis=0"}, {"Mul", "t,x", "o", ""}},
+			{{"Reshape", "w,s2", "t", ""}, {"Sub", "x,t", "o", ""}},
+			{{"Transpose", "w", "t", "perm=0,1"}, {"MatMul", "x,t", "o", ""}},
+			{{"Squeeze", "w", "t", ""}, {"Unsqueeze", "t,ax0", "u", ""}, {"Add", "x,t", "o", ""}},
+			{{"Cast", "w", "t", "to=1"}, {"Add", "t,x", "o", ""}},
 		} {
 			inputs, inits := []string{"x:2,2"}, []string{"w:2,2", "b:2"}
 			outs := []string{"o"}
+			if t[0].in == "w,s2" || t[0].in == "w" {
+				inits = []string{"w:2,2", "s2:2:i64=2,2", "ax0:1:i64=0"}
+			}
 			if t[0].op == "Conv" {
 				inputs, inits = []string{"x4:1,1,3,3"}, []string{"k:2,1,2,2", "cb:2"}
 			}
@@ -189,11 +227,12 @@ func c02Plan(o Options, prop, harness string) *Plan {
 			cm["inputsB"] = inputs
 			cm["mode"] = ""
 			cm["feedback"] = ""
+			cm["inputsBad"] = []string{}
 			p.Jobs = append(p.Jobs, Job{Harness: harness, Case: cm})
 		}
 		p.Bounds = []string{
 			"one inductive step plus a concrete history: for each model, Run(A), a failing Run (an input missing), Run(B) (other values, for several operators another batch size) compared with a freshly loaded model, Run(A) again with the very same tensor objects compared with the first result, and a Run fed with an output of the first Run; after every Run the caller's tensors and every weight are compared with snapshots (shape, strides, dtype, elements) and the frame monitor must have seen no write to them",
-			"models: single-node graphs for all 55 operators (several attribute/shape variants; every input that can be a weight once supplied by the caller and once as initializer) plus three multi-node graphs; every float/bool element symbolic (exact real arithmetic; IEEE for Cast), integer-typed shape/axes/index tensors concrete",
+			"models: single-node graphs for all 55 operators (several attribute/shape variants; every input that can be a weight once supplied by the caller and once as initializer) plus nine multi-node graphs (six pass a weight through an operator that may return its input itself, as an intermediate value); every float/bool element symbolic (exact real arithmetic; IEEE for Cast), integer-typed shape/axes/index tensors concrete",
 		}
 		p.Outside = []string{"histories longer than five Runs (covered by induction on the frame condition: a Run that writes nothing reachable from the Model or the caller's tensors starts from the state a fresh Model starts from)", "the sample .onnx files (their operators are covered one by one)", "tensor extents > 4"}
 		p.Explanation = "NewModel + Model.Run sequences executed symbolically with the frame monitor armed on all parameters and caller tensors"
